@@ -1,26 +1,1480 @@
-//! C29: not implemented yet.
+//! C29: unit tests run isolated and report exactly their outcome.
+//!
+//! Generated test suites (std-less library, std library / script / predicate, contract with
+//! storage) whose `#[test]` functions have an outcome KNOWN BY CONSTRUCTION (terminal state and
+//! the exact sequence of logged values), crossed with every declared expectation. The real
+//! forc-test flow (`forc_pkg::build_with_options(tests)` -> `BuiltTests::from_built` ->
+//! `BuiltTests::run`, exactly what `forc_test::build` + `run` do) is executed with 1 and N
+//! runners, unfiltered and through filters; an oracle compares per test
+//!   * `TestResult::passed()` with (ground truth x expectation),
+//!   * `TestResult::state` with the constructed terminal state,
+//!   * the logged values with the constructed sequence (own unique ids only; storage reads give
+//!     the declared initialisers; read-back of own writes),
+//!   * the set of executed tests with the filter's meaning, and filtered == full observations.
 use crate::common::*;
+use crate::engine::{self, Profile};
 use crate::{Plan, Prop};
+use forc_pkg::{BuildOpts, BuildPlan, Built, BuiltPackage, PkgOpts};
+use rand::rngs::StdRng;
+use rand::seq::SliceRandom;
+use rand::Rng;
+use serde::{Deserialize, Serialize};
+use serde_json::{json, Value};
+use std::collections::{BTreeMap, BTreeSet};
+use std::panic::AssertUnwindSafe;
+use std::path::Path;
+use std::sync::Arc;
 
 pub static META: PropertyMeta = PropertyMeta {
     id: "C29",
     level: "exploration",
-    rule: "not implemented",
-    assumptions: &[],
-    floor_evaluations: 1,
-    floor_nontrivial: 2,
-    required_counters: &[],
+    rule: "generated packages (std-less library; library / script / predicate with std; contract with storage fields, StorageVec and StorageMap) of 5-30 #[test] functions (some in a sub-module) whose terminal state and logged values are known by construction; every test is declared with one of: no expectation, should_revert, should_revert = \"<matching code>\", should_revert = \"<other code>\"; each suite is built once per profile with the real forc test build and run with 1 runner, with N runners and through 4-7 filters (exact name that is a prefix of another name, substring, part of a name as exact phrase, shared words, no match); an evaluation = one (suite, profile); non-trivial = suite with >= 3 different outcome kinds whose full run was checked; distinct = hash of the package source",
+    assumptions: &[
+        "fuel-vm 0.66 is the trusted execution substrate (a VM panic ends the script with ProgramState::Revert(0), which forc test reports as a revert with code 0)",
+        "asm blocks and #[inline(never)] functions are opaque to the optimiser (used to hide the operands of arithmetic that must panic at run time)",
+    ],
+    floor_evaluations: 20,
+    floor_nontrivial: 10,
+    required_counters: &[
+        "cell_ret_none", "cell_ret_any", "cell_ret_mismatch",
+        "cell_revert_none", "cell_revert_any", "cell_revert_match", "cell_revert_mismatch",
+        "cell_assert_none", "cell_assert_any", "cell_assert_match", "cell_assert_mismatch",
+        "cell_require_none", "cell_require_any", "cell_require_match", "cell_require_mismatch",
+        "cell_asserteq_none", "cell_asserteq_any", "cell_asserteq_match", "cell_asserteq_mismatch",
+        "cell_panic_none", "cell_panic_any", "cell_panic_match", "cell_panic_mismatch",
+        "storage_writing_tests_checked", "initialiser_reads_checked", "runs_with_1_runner", "runs_with_n_runners",
+        "filtered_runs", "filtered_tests_compared_with_full_run", "log_values_checked",
+        "suites_contract", "suites_stdless_library", "suites_std_noncontract", "profile_debug", "profile_release",
+    ],
 };
 
 pub static PROP: Prop = Prop {
     meta: &META,
-    plan: |_t| Plan { nshards: 1, budget_s: 1.0, mem_gib: 0 },
-    shard: |_ctx| {
-        let mut r = ShardResult::default();
-        r.harness_fault = Some("not implemented".into());
-        r
+    plan: |t| {
+        // The per-case watchdog (60 s by default) exists for inputs on which the compiler does not
+        // terminate. A suite here is one std build plus ~8 runs; on a machine shared with other
+        // builds one phase can take longer than that, so the limit is raised for the shard
+        // processes (they inherit the environment) and re-armed per phase (see `Rearm`).
+        if std::env::var("SWVERIF_CASE_WATCHDOG_S").is_err() {
+            std::env::set_var("SWVERIF_CASE_WATCHDOG_S", "300");
+        }
+        Plan { nshards: 16, budget_s: t.pick(50.0, 1000.0), mem_gib: 8 }
     },
-    replay: crate::no_replay,
+    shard,
+    replay,
     extra: crate::no_extra,
-    subcommand: crate::no_subcommand,
+    subcommand,
 };
+
+// ------------------------------------------------------------------------------------------
+// Suite model
+
+const SIG_REQUIRE: u64 = 0xffff_ffff_ffff_0000;
+const SIG_ASSERT_EQ: u64 = 0xffff_ffff_ffff_0003;
+const SIG_ASSERT: u64 = 0xffff_ffff_ffff_0004;
+const SIG_ASSERT_NE: u64 = 0xffff_ffff_ffff_0005;
+
+#[derive(Clone, Copy, Debug, PartialEq, Eq, PartialOrd, Ord, Serialize, Deserialize)]
+enum Kind {
+    Ret,
+    Revert,
+    Assert,
+    Require,
+    AssertEq,
+    Panic,
+}
+
+impl Kind {
+    fn name(self) -> &'static str {
+        match self {
+            Kind::Ret => "ret",
+            Kind::Revert => "revert",
+            Kind::Assert => "assert",
+            Kind::Require => "require",
+            Kind::AssertEq => "asserteq",
+            Kind::Panic => "panic",
+        }
+    }
+}
+
+#[derive(Clone, Copy, Debug, PartialEq, Eq, Serialize, Deserialize)]
+enum Expect {
+    None,
+    Any,
+    /// should_revert = "<code>"; `matching` is by construction
+    Code(u64),
+}
+
+#[derive(Clone, Copy, Debug, PartialEq, Eq)]
+enum ExpClass {
+    None,
+    Any,
+    Match,
+    Mismatch,
+}
+
+impl ExpClass {
+    fn name(self) -> &'static str {
+        match self {
+            ExpClass::None => "none",
+            ExpClass::Any => "any",
+            ExpClass::Match => "match",
+            ExpClass::Mismatch => "mismatch",
+        }
+    }
+}
+
+#[derive(Clone, Debug, Serialize, Deserialize)]
+struct TestSpec {
+    name: String,
+    kind: Kind,
+    /// terminal revert code (None = returns normally); a VM panic is Some(0)
+    code: Option<u64>,
+    expect: Expect,
+    /// values logged by this test, in order
+    logs: Vec<u64>,
+    /// number of leading log values that are reads of declared storage initialisers
+    init_reads: u64,
+    writes_storage: bool,
+    in_submodule: bool,
+}
+
+impl TestSpec {
+    fn should_pass(&self) -> bool {
+        oracle_pass(self.code, self.expect)
+    }
+    fn exp_class(&self) -> ExpClass {
+        match self.expect {
+            Expect::None => ExpClass::None,
+            Expect::Any => ExpClass::Any,
+            Expect::Code(c) => {
+                if self.code == Some(c) {
+                    ExpClass::Match
+                } else {
+                    ExpClass::Mismatch
+                }
+            }
+        }
+    }
+}
+
+/// The property's definition of "passed": execution matches the declared expectation.
+fn oracle_pass(code: Option<u64>, expect: Expect) -> bool {
+    match (expect, code) {
+        (Expect::None, None) => true,
+        (Expect::None, Some(_)) => false,
+        (Expect::Any, c) => c.is_some(),
+        (Expect::Code(want), Some(got)) => want == got,
+        (Expect::Code(_), None) => false,
+    }
+}
+
+#[derive(Clone, Copy, Debug, PartialEq, Eq, Serialize, Deserialize)]
+enum PkgKind {
+    StdlessLibrary,
+    Library,
+    Script,
+    Predicate,
+    Contract,
+}
+
+impl PkgKind {
+    fn name(self) -> &'static str {
+        match self {
+            PkgKind::StdlessLibrary => "stdless_library",
+            PkgKind::Library => "library",
+            PkgKind::Script => "script",
+            PkgKind::Predicate => "predicate",
+            PkgKind::Contract => "contract",
+        }
+    }
+    fn with_std(self) -> bool {
+        self != PkgKind::StdlessLibrary
+    }
+}
+
+#[derive(Clone, Debug, Serialize, Deserialize)]
+struct Suite {
+    pkg: PkgKind,
+    main_src: String,
+    /// (file name under src/, content)
+    sub_src: Option<(String, String)>,
+    tests: Vec<TestSpec>,
+    /// number of runners of the parallel run
+    n_runners: usize,
+    /// (phrase, exact)
+    filters: Vec<(String, bool)>,
+}
+
+impl Suite {
+    fn hash(&self) -> u64 {
+        let mut s = self.main_src.clone();
+        if let Some((_, b)) = &self.sub_src {
+            s.push_str(b);
+        }
+        hash64(s.as_bytes())
+    }
+    fn kinds(&self) -> usize {
+        self.tests.iter().map(|t| t.kind).collect::<BTreeSet<_>>().len()
+    }
+}
+
+// ------------------------------------------------------------------------------------------
+// Generator
+
+struct Ids {
+    tag: u64,
+    test: u64,
+    seq: u64,
+}
+
+impl Ids {
+    /// unique per (suite, test, seq); never collides with the initialisers (test = 0xfff)
+    fn next(&mut self) -> u64 {
+        let v = 0x5a00_0000_0000_0000u64 | (self.tag << 32) | (self.test << 16) | self.seq;
+        self.seq += 1;
+        v
+    }
+    /// reserve n consecutive ids
+    fn next_n(&mut self, n: u64) -> u64 {
+        let v = self.next();
+        self.seq += n.saturating_sub(1);
+        v
+    }
+}
+
+fn init_value(tag: u64, which: u64) -> u64 {
+    0x5a00_0000_0000_0000u64 | (tag << 32) | (0xfff << 16) | which
+}
+
+const MISSING: u64 = 0x0dead_0000_0000_0001;
+const SHARED_KEY: u64 = 77;
+
+struct Body {
+    src: String,
+    logs: Vec<u64>,
+    tmp: u32,
+    std: bool,
+    /// predicates may not contain LOG/LOGD: nothing is logged
+    mute: bool,
+    contract: bool,
+    writes: bool,
+}
+
+impl Body {
+    fn line(&mut self, s: &str) {
+        self.src.push_str("    ");
+        self.src.push_str(s);
+        self.src.push('\n');
+    }
+    fn tmp(&mut self) -> String {
+        self.tmp += 1;
+        format!("x{}", self.tmp)
+    }
+    fn log_expr(&self, e: &str) -> String {
+        if self.mute {
+            format!("mute({e});")
+        } else if self.std {
+            format!("log({e});")
+        } else {
+            format!("lg({e});")
+        }
+    }
+    fn emit_log(&mut self, v: u64) {
+        let l = self.log_expr(&format!("{v}u64"));
+        self.line(&l);
+        self.logs.push(v);
+    }
+    fn add(&self, a: &str, b: &str) -> String {
+        if self.std {
+            format!("{a} + {b}")
+        } else {
+            format!("__add({a}, {b})")
+        }
+    }
+    fn eq(&self, a: &str, b: &str) -> String {
+        if self.std {
+            format!("{a} == {b}")
+        } else {
+            format!("__eq({a}, {b})")
+        }
+    }
+    fn lt(&self, a: &str, b: &str) -> String {
+        if self.std {
+            format!("{a} < {b}")
+        } else {
+            format!("__lt({a}, {b})")
+        }
+    }
+
+    /// a statement with known logs that does not end the test
+    fn filler(&mut self, rng: &mut StdRng, ids: &mut Ids) {
+        match rng.gen_range(0..6) {
+            0 => {
+                let v = ids.next();
+                self.emit_log(v);
+            }
+            1 => {
+                // sum of two hidden operands
+                let v = ids.next();
+                let b = rng.gen_range(1..1000u64);
+                let a = v - b;
+                let t = self.tmp();
+                let e = self.add(&format!("opq({a}u64)"), &format!("opq({b}u64)"));
+                self.line(&format!("let {t}: u64 = {e};"));
+                let l = self.log_expr(&t);
+                self.line(&l);
+                self.logs.push(v);
+            }
+            2 => {
+                // loop logging k consecutive ids
+                let k = rng.gen_range(1..=4u64);
+                let base = ids.next_n(k);
+                let i = self.tmp();
+                self.line(&format!("let mut {i}: u64 = 0u64;"));
+                let cond = self.lt(&i, &format!("opq({k}u64)"));
+                self.line(&format!("while {cond} {{"));
+                let sum = self.add(&format!("{base}u64"), &i);
+                let l = self.log_expr(&sum);
+                self.line(&format!("    {l}"));
+                let inc = self.add(&i, "1u64");
+                self.line(&format!("    {i} = {inc};"));
+                self.line("}");
+                for j in 0..k {
+                    self.logs.push(base + j);
+                }
+            }
+            3 => {
+                // branch on a hidden value
+                let taken = ids.next();
+                let not_taken = ids.next();
+                let x = rng.gen_range(0..50u64);
+                let same = rng.gen_bool(0.5);
+                let y = if same { x } else { x + 1 };
+                let cond = self.eq(&format!("opq({x}u64)"), &format!("{y}u64"));
+                let (then_v, else_v) = if same { (taken, not_taken) } else { (not_taken, taken) };
+                self.line(&format!("if {cond} {{"));
+                let l1 = self.log_expr(&format!("{then_v}u64"));
+                self.line(&format!("    {l1}"));
+                self.line("} else {");
+                let l2 = self.log_expr(&format!("{else_v}u64"));
+                self.line(&format!("    {l2}"));
+                self.line("}");
+                self.logs.push(taken);
+            }
+            4 => {
+                // through a helper function
+                let v = ids.next();
+                self.line(&format!("emit({v}u64);"));
+                self.logs.push(v);
+            }
+            _ => {
+                if self.contract {
+                    self.storage_op(rng, ids);
+                } else if self.std && !self.mute {
+                    // passing checks that must not end the test
+                    let v = ids.next();
+                    match rng.gen_range(0..3) {
+                        0 => self.line("assert(opq(3u64) == 3u64);"),
+                        1 => self.line(&format!("require(opq(1u64) == 1u64, {v}u64);")),
+                        _ => self.line("assert_eq(opq(7u64), 7u64);"),
+                    }
+                    self.emit_log(v);
+                } else {
+                    let v = ids.next();
+                    self.emit_log(v);
+                }
+            }
+        }
+    }
+
+    /// write a unique value and read it back (the read-back shows that the write took effect)
+    fn storage_op(&mut self, rng: &mut StdRng, ids: &mut Ids) {
+        self.writes = true;
+        let v = ids.next();
+        match rng.gen_range(0..5) {
+            0 => {
+                // set_a logs the value it writes from inside the contract
+                self.line(&format!("c.set_a({v}u64);"));
+                self.logs.push(v);
+                self.line("log(c.get_a());");
+                self.logs.push(v);
+            }
+            1 => {
+                self.line(&format!("c.set_b({v}u64);"));
+                self.line("log(c.get_b());");
+                self.logs.push(v);
+            }
+            2 => {
+                self.line(&format!("c.push_v({v}u64);"));
+                self.line("log(c.get_v(c.len_v() - 1u64));");
+                self.logs.push(v);
+            }
+            3 => {
+                self.line(&format!("c.ins_m({SHARED_KEY}u64, {v}u64);"));
+                self.line(&format!("log(c.get_m({SHARED_KEY}u64));"));
+                self.logs.push(v);
+            }
+            _ => {
+                let w = ids.next();
+                self.line(&format!("c.set_p({v}u64, {w}u64);"));
+                self.line("log(c.get_px());");
+                self.line("log(c.get_py());");
+                self.logs.push(v);
+                self.logs.push(w);
+            }
+        }
+    }
+}
+
+/// a revert code with interesting shapes
+fn gen_code(rng: &mut StdRng) -> u64 {
+    match rng.gen_range(0..10) {
+        0 => 0,
+        1 => rng.gen_range(1..10),
+        2 => 42,
+        3 => u64::MAX,
+        4 => SIG_ASSERT ^ (1 << rng.gen_range(0..64)),
+        5 => [SIG_REQUIRE, SIG_ASSERT, SIG_ASSERT_EQ, SIG_ASSERT_NE][rng.gen_range(0..4)],
+        6 => 1u64 << rng.gen_range(0..64),
+        7 => rng.gen::<u32>() as u64,
+        _ => rng.gen::<u64>(),
+    }
+}
+
+fn mismatch_code(rng: &mut StdRng, actual: Option<u64>) -> u64 {
+    let Some(c) = actual else {
+        return gen_code(rng);
+    };
+    let cands = [c.wrapping_add(1), c.wrapping_sub(1), c ^ (1 << rng.gen_range(0..64)), c & 0xffff_ffff, c >> 32, 0, u64::MAX, c.swap_bytes(), gen_code(rng), SIG_ASSERT, SIG_REQUIRE];
+    let ok: Vec<u64> = cands.iter().copied().filter(|x| *x != c).collect();
+    ok[rng.gen_range(0..ok.len())]
+}
+
+fn gen_test(rng: &mut StdRng, pkg: PkgKind, name: String, idx: u64, tag: u64, kind: Kind, exp: ExpClass, in_submodule: bool) -> (TestSpec, String) {
+    let std = pkg.with_std();
+    let contract = pkg == PkgKind::Contract && !in_submodule;
+    let mut ids = Ids { tag, test: idx, seq: 0 };
+    let mute = pkg == PkgKind::Predicate;
+    let mut b = Body { src: String::new(), logs: vec![], tmp: 0, std, mute, contract, writes: false };
+    let mut init_reads = 0;
+    if contract {
+        // every contract test first logs what it reads: must be the declared initialisers
+        b.line("let c = abi(Iso, CONTRACT_ID);");
+        b.line("log(c.get_a());");
+        b.line("log(c.get_b());");
+        b.line("log(c.len_v());");
+        b.line(&format!("log(c.get_m({SHARED_KEY}u64));"));
+        b.line("log(c.get_px());");
+        b.line("log(c.get_py());");
+        b.logs.extend([init_value(tag, 1), init_value(tag, 2), 0, MISSING, init_value(tag, 3), init_value(tag, 4)]);
+        init_reads = 6;
+        if rng.gen_bool(0.75) {
+            b.storage_op(rng, &mut ids);
+        }
+    }
+    for _ in 0..rng.gen_range(0..=3) {
+        b.filler(rng, &mut ids);
+    }
+    let code: Option<u64>;
+    // whether the statements after the terminal one are syntactically reachable
+    let mut add_dead = true;
+    match kind {
+        Kind::Ret => {
+            code = None;
+            add_dead = false;
+            let v = ids.next();
+            b.emit_log(v);
+        }
+        Kind::Revert => {
+            let c = gen_code(rng);
+            code = Some(c);
+            let nforms = if contract { 7 } else { 5 };
+            match rng.gen_range(0..nforms) {
+                0 => {
+                    b.line(&if std { format!("revert({c}u64);") } else { format!("__revert({c}u64);") });
+                    add_dead = false;
+                }
+                1 => b.line(&format!("bail({c}u64);")),
+                2 => {
+                    let cond = b.eq("opq(1u64)", "1u64");
+                    b.line(&format!("if {cond} {{"));
+                    b.line(&if std { format!("    revert({c}u64);") } else { format!("    __revert({c}u64);") });
+                    b.line("}");
+                }
+                3 => {
+                    // revert from inside a loop
+                    let i = b.tmp();
+                    b.line(&format!("let mut {i}: u64 = 0u64;"));
+                    let cond = b.lt(&i, "opq(5u64)");
+                    b.line(&format!("while {cond} {{"));
+                    let at = b.eq(&i, "2u64");
+                    b.line(&format!("    if {at} {{ bail({c}u64); }}"));
+                    let inc = b.add(&i, "1u64");
+                    b.line(&format!("    {i} = {inc};"));
+                    b.line("}");
+                }
+                4 => {
+                    b.line(&format!("__revert({c}u64);"));
+                    add_dead = false;
+                }
+                5 => b.line(&format!("c.boom({c}u64);")),
+                _ => {
+                    // a storage write followed by a revert inside the contract
+                    let v = ids.next();
+                    b.writes = true;
+                    b.line(&format!("c.set_a_then_boom({v}u64, {c}u64);"));
+                    b.logs.push(v);
+                }
+            }
+        }
+        Kind::Assert => {
+            code = Some(SIG_ASSERT);
+            let a = rng.gen_range(0..100u64);
+            match rng.gen_range(0..2) {
+                0 => b.line(&format!("assert(opq({a}u64) == {}u64);", a + 1)),
+                _ => b.line(&format!("assert(opq({a}u64) != {a}u64);")),
+            }
+        }
+        Kind::Require => {
+            code = Some(SIG_REQUIRE);
+            let v = ids.next();
+            let a = rng.gen_range(0..100u64);
+            b.line(&format!("require(opq({a}u64) > {a}u64, {v}u64);"));
+            b.logs.push(v);
+        }
+        Kind::AssertEq => {
+            if rng.gen_bool(0.7) {
+                code = Some(SIG_ASSERT_EQ);
+                let v = ids.next();
+                let w = ids.next();
+                b.line(&format!("assert_eq(opq({v}u64), {w}u64);"));
+                b.logs.push(v);
+                b.logs.push(w);
+            } else {
+                code = Some(SIG_ASSERT_NE);
+                let v = ids.next();
+                b.line(&format!("assert_ne(opq({v}u64), {v}u64);"));
+                b.logs.push(v);
+                b.logs.push(v);
+            }
+        }
+        Kind::Panic => {
+            code = Some(0);
+            let t = b.tmp();
+            let a = rng.gen_range(1..1_000_000u64);
+            let nforms = if contract { 7 } else { 5 };
+            let e = match (rng.gen_range(0..nforms), std) {
+                (0, true) => format!("opq(18446744073709551615u64) + opq({a}u64)"),
+                (0, false) => format!("__add(opq(18446744073709551615u64), opq({a}u64))"),
+                (1, true) => format!("opq({a}u64) / opq(0u64)"),
+                (1, false) => format!("__div(opq({a}u64), opq(0u64))"),
+                (2, true) => format!("opq({a}u64) - opq({}u64)", a + 1),
+                (2, false) => format!("__sub(opq({a}u64), opq({}u64))", a + 1),
+                (3, true) => format!("opq(9223372036854775808u64) * opq({}u64)", 2 + a % 5),
+                (3, false) => format!("__mul(opq(9223372036854775808u64), opq({}u64))", 2 + a % 5),
+                (4, true) => format!("opq({a}u64) % opq(0u64)"),
+                (4, false) => format!("__mod(opq({a}u64), opq(0u64))"),
+                // the divisor comes from a storage read inside the contract
+                (5, _) => format!("c.div_by_z({a}u64)"),
+                _ => format!("{a}u64 / c.get_z()"),
+            };
+            b.line(&format!("let {t}: u64 = {e};"));
+            // the result is used, so the operation cannot be removed; never reached
+            let l = b.log_expr(&t);
+            b.line(&l);
+            add_dead = false;
+        }
+    }
+    if add_dead {
+        // never reached
+        let v = ids.next();
+        let l = b.log_expr(&format!("{v}u64"));
+        b.line(&l);
+    }
+    let expect = match exp {
+        ExpClass::None => Expect::None,
+        ExpClass::Any => Expect::Any,
+        ExpClass::Match => Expect::Code(code.expect("match needs a revert")),
+        ExpClass::Mismatch => Expect::Code(mismatch_code(rng, code)),
+    };
+    let attr = match expect {
+        Expect::None => "#[test]".to_string(),
+        Expect::Any => "#[test(should_revert)]".to_string(),
+        Expect::Code(c) => format!("#[test(should_revert = \"{c}\")]"),
+    };
+    let src = format!("{attr}\nfn {name}() {{\n{}}}\n\n", b.src);
+    if mute {
+        b.logs.clear();
+    }
+    let spec = TestSpec { name, kind, code, expect, logs: b.logs, init_reads, writes_storage: b.writes, in_submodule };
+    (spec, src)
+}
+
+fn helpers(std: bool, mute: bool) -> String {
+    if mute {
+        "#[inline(never)]\nfn opq(x: u64) -> u64 {\n    asm(r: x) { r: u64 }\n}\n\n#[inline(never)]\nfn mute(x: u64) {\n    let _ = opq(x);\n}\n\n#[inline(never)]\nfn emit(x: u64) {\n    mute(x);\n}\n\n#[inline(never)]\nfn bail(c: u64) {\n    revert(c);\n}\n\n".to_string()
+    } else if std {
+        "#[inline(never)]\nfn opq(x: u64) -> u64 {\n    asm(r: x) { r: u64 }\n}\n\n#[inline(never)]\nfn emit(x: u64) {\n    log(x);\n}\n\n#[inline(never)]\nfn bail(c: u64) {\n    revert(c);\n}\n\n".to_string()
+    } else {
+        "#[inline(never)]\nfn opq(x: u64) -> u64 {\n    asm(r: x) { r: u64 }\n}\n\nfn lg(x: u64) {\n    asm(r1: x) { log r1 zero zero zero; }\n}\n\n#[inline(never)]\nfn emit(x: u64) {\n    lg(x);\n}\n\n#[inline(never)]\nfn bail(c: u64) {\n    __revert(c);\n}\n\n".to_string()
+    }
+}
+
+fn contract_prelude(tag: u64) -> String {
+    let (a, b, px, py) = (init_value(tag, 1), init_value(tag, 2), init_value(tag, 3), init_value(tag, 4));
+    format!(
+        r#"contract;
+
+use std::storage::storage_vec::*;
+use std::hash::*;
+
+struct Pair {{
+    x: u64,
+    y: u64,
+}}
+
+storage {{
+    a: u64 = {a}u64,
+    b: u64 = {b}u64,
+    z: u64 = 0u64,
+    p: Pair = Pair {{ x: {px}u64, y: {py}u64 }},
+    v: StorageVec<u64> = StorageVec {{}},
+    m: StorageMap<u64, u64> = StorageMap::<u64, u64> {{}},
+}}
+
+abi Iso {{
+    #[storage(read)]
+    fn get_a() -> u64;
+    #[storage(read, write)]
+    fn set_a(x: u64);
+    #[storage(read)]
+    fn get_b() -> u64;
+    #[storage(write)]
+    fn set_b(x: u64);
+    #[storage(read)]
+    fn get_z() -> u64;
+    #[storage(read)]
+    fn get_px() -> u64;
+    #[storage(read)]
+    fn get_py() -> u64;
+    #[storage(write)]
+    fn set_p(x: u64, y: u64);
+    #[storage(read)]
+    fn len_v() -> u64;
+    #[storage(read)]
+    fn get_v(i: u64) -> u64;
+    #[storage(read, write)]
+    fn push_v(x: u64);
+    #[storage(read)]
+    fn get_m(k: u64) -> u64;
+    #[storage(read, write)]
+    fn ins_m(k: u64, x: u64);
+    fn boom(c: u64);
+    #[storage(read, write)]
+    fn set_a_then_boom(x: u64, c: u64);
+    #[storage(read)]
+    fn div_by_z(x: u64) -> u64;
+}}
+
+impl Iso for Contract {{
+    #[storage(read)]
+    fn get_a() -> u64 {{
+        storage.a.read()
+    }}
+    #[storage(read, write)]
+    fn set_a(x: u64) {{
+        storage.a.write(x);
+        log(storage.a.read());
+    }}
+    #[storage(read)]
+    fn get_b() -> u64 {{
+        storage.b.read()
+    }}
+    #[storage(write)]
+    fn set_b(x: u64) {{
+        storage.b.write(x);
+    }}
+    #[storage(read)]
+    fn get_z() -> u64 {{
+        storage.z.read()
+    }}
+    #[storage(read)]
+    fn get_px() -> u64 {{
+        storage.p.x.read()
+    }}
+    #[storage(read)]
+    fn get_py() -> u64 {{
+        storage.p.read().y
+    }}
+    #[storage(write)]
+    fn set_p(x: u64, y: u64) {{
+        storage.p.write(Pair {{ x: x, y: y }});
+    }}
+    #[storage(read)]
+    fn len_v() -> u64 {{
+        storage.v.len()
+    }}
+    #[storage(read)]
+    fn get_v(i: u64) -> u64 {{
+        match storage.v.get(i) {{
+            Some(k) => k.read(),
+            None => {MISSING}u64,
+        }}
+    }}
+    #[storage(read, write)]
+    fn push_v(x: u64) {{
+        storage.v.push(x);
+    }}
+    #[storage(read)]
+    fn get_m(k: u64) -> u64 {{
+        storage.m.get(k).try_read().unwrap_or({MISSING}u64)
+    }}
+    #[storage(read, write)]
+    fn ins_m(k: u64, x: u64) {{
+        storage.m.insert(k, x);
+    }}
+    fn boom(c: u64) {{
+        revert(c);
+    }}
+    #[storage(read, write)]
+    fn set_a_then_boom(x: u64, c: u64) {{
+        storage.a.write(x);
+        log(storage.a.read());
+        revert(c);
+    }}
+    #[storage(read)]
+    fn div_by_z(x: u64) -> u64 {{
+        x / storage.z.read()
+    }}
+}}
+
+"#
+    )
+}
+
+const WORDS: [&str; 10] = ["t", "foo", "bar", "foo_bar", "ab", "abc", "check", "t_foo", "it", "case"];
+
+fn gen_suite(rng: &mut StdRng, pkg: PkgKind) -> Suite {
+    let tag = rng.gen_range(1..0xffffu64);
+    let n = match rng.gen_range(0..10) {
+        0..=3 => rng.gen_range(5..=10),
+        4..=7 => rng.gen_range(10..=23),
+        _ => rng.gen_range(23..=30),
+    };
+    // the (kind, expectation) cells: a shuffled deck so that every suite spreads over the cells
+    let kinds: &[Kind] = if pkg == PkgKind::Predicate {
+        &[Kind::Ret, Kind::Revert, Kind::Assert, Kind::Panic]
+    } else if pkg.with_std() { &[Kind::Ret, Kind::Revert, Kind::Assert, Kind::Require, Kind::AssertEq, Kind::Panic] } else { &[Kind::Ret, Kind::Revert, Kind::Panic] };
+    let mut deck: Vec<(Kind, ExpClass)> = vec![];
+    for k in kinds {
+        for e in [ExpClass::None, ExpClass::Any, ExpClass::Match, ExpClass::Mismatch] {
+            if !(*k == Kind::Ret && e == ExpClass::Match) {
+                deck.push((*k, e));
+            }
+        }
+    }
+    deck.shuffle(rng);
+    let with_sub = rng.gen_bool(0.35);
+    let n_sub = if with_sub { rng.gen_range(1..=3usize).min(n - 1) } else { 0 };
+    // names: words shared between tests and numeric suffixes that are prefixes of each other, so
+    // that substring and exact filters select different sets
+    let mut names: Vec<String> = vec![];
+    let mut used = BTreeSet::new();
+    while names.len() < n {
+        let w = WORDS[rng.gen_range(0..WORDS.len())];
+        let num = match rng.gen_range(0..3) {
+            0 => rng.gen_range(0..4u32),
+            1 => rng.gen_range(0..40),
+            _ => rng.gen_range(0..400),
+        };
+        let name = if rng.gen_bool(0.15) { format!("{w}_{num}_{}", WORDS[rng.gen_range(0..WORDS.len())]) } else { format!("{w}_{num}") };
+        if used.insert(name.clone()) {
+            names.push(name);
+        }
+    }
+    // always one name that is a proper prefix of another one
+    let longer = format!("{}{}", names[0], rng.gen_range(0..10u32));
+    if !used.contains(&longer) {
+        names[1] = longer;
+    }
+    let mut main = String::new();
+    let mut sub = String::new();
+    let mut tests = vec![];
+    for (i, name) in names.iter().enumerate() {
+        let (kind, exp) = deck[i % deck.len()];
+        let in_sub = i >= n - n_sub;
+        let (spec, src) = gen_test(rng, pkg, name.clone(), i as u64 + 1, tag, kind, exp, in_sub);
+        if in_sub {
+            sub.push_str(&src);
+        } else {
+            main.push_str(&src);
+        }
+        tests.push(spec);
+    }
+    let std = pkg.with_std();
+    let header = match pkg {
+        PkgKind::StdlessLibrary | PkgKind::Library => "library;\n\n".to_string(),
+        PkgKind::Script => "script;\n\n".to_string(),
+        PkgKind::Predicate => "predicate;\n\n".to_string(),
+        PkgKind::Contract => contract_prelude(tag),
+    };
+    let mut main_src = String::new();
+    if with_sub {
+        // `mod` must come right after the program kind
+        let (first, rest) = header.split_once('\n').unwrap();
+        main_src.push_str(first);
+        main_src.push_str("\n\nmod inner;\n");
+        main_src.push_str(rest);
+    } else {
+        main_src.push_str(&header);
+    }
+    match pkg {
+        PkgKind::Script => main_src.push_str("fn main() {}\n\n"),
+        PkgKind::Predicate => main_src.push_str("fn main() -> bool {\n    true\n}\n\n"),
+        _ => {}
+    }
+    main_src.push_str(&helpers(std, pkg == PkgKind::Predicate));
+    // a non-test function between the tests: must never be reported as a test
+    main_src.push_str("fn not_a_test() -> u64 {\n    opq(5u64)\n}\n\n");
+    main_src.push_str(&main);
+    let sub_src = if with_sub { Some(("inner.sw".to_string(), format!("library;\n\n{}{}", helpers(std, pkg == PkgKind::Predicate), sub))) } else { None };
+
+    // filters
+    // fixed: the exact name that is a prefix of another name, the same as a substring, and an
+    // exact phrase that is only part of a name (selects nothing)
+    let mut filters: Vec<(String, bool)> = vec![(names[0].clone(), true), (names[0].clone(), false), (names[1][1..].to_string(), true)];
+    filters.rotate_left(rng.gen_range(0..3));
+    let nf = rng.gen_range(1..=4);
+    for _ in 0..nf {
+        let t = &names[rng.gen_range(0..names.len())];
+        let f = match rng.gen_range(0..10) {
+            0 | 1 => (t.clone(), true),
+            2 | 3 => (t.clone(), false),
+            4 | 5 => {
+                // a substring of a name
+                let a = rng.gen_range(0..t.len());
+                let b = rng.gen_range(a + 1..=t.len());
+                (t[a..b].to_string(), rng.gen_bool(0.1))
+            }
+            6 | 7 => (WORDS[rng.gen_range(0..WORDS.len())].to_string(), false),
+            8 => (format!("_{}", rng.gen_range(0..10)), false),
+            _ => ("no_such_test_zz".to_string(), rng.gen_bool(0.5)),
+        };
+        filters.push(f);
+    }
+    let n_runners = *[2usize, 3, 4, 8].choose(rng).unwrap();
+    Suite { pkg, main_src, sub_src, tests, n_runners, filters }
+}
+
+// ------------------------------------------------------------------------------------------
+// Running the real forc-test flow
+
+#[derive(Clone, Debug, PartialEq, Eq)]
+enum State {
+    Return,
+    Revert(u64),
+    Other(String),
+}
+
+#[derive(Clone, Debug, PartialEq, Eq)]
+struct Obs {
+    name: String,
+    passed: bool,
+    state: State,
+    /// logged u64 values; Err(description) for a log receipt that is not a u64 value
+    logs: Vec<Result<u64, String>>,
+}
+
+struct BuiltSuite {
+    plan: BuildPlan,
+    built: Arc<BuiltPackage>,
+}
+
+fn write_suite(dir: &Path, s: &Suite) -> anyhow::Result<()> {
+    let _ = std::fs::remove_dir_all(dir);
+    engine::write_pkg(dir, "c29suite", &s.main_src, s.pkg.with_std())?;
+    if let Some((f, body)) = &s.sub_src {
+        std::fs::write(dir.join("src").join(f), body)?;
+    }
+    Ok(())
+}
+
+/// The two steps of `forc_test::build`, kept apart so that one build serves many runs.
+fn build_suite(dir: &Path, profile: Profile) -> anyhow::Result<BuiltSuite> {
+    let opts = forc_test::TestOpts {
+        pkg: PkgOpts { path: Some(dir.to_string_lossy().to_string()), offline: true, terse: std::env::var("C29_VERBOSE").is_err(), ..Default::default() },
+        release: profile == Profile::Release,
+        build_profile: profile.name().to_string(),
+        no_output: true,
+        ..Default::default()
+    };
+    let build_opts: BuildOpts = opts.into();
+    let plan = BuildPlan::from_pkg_opts(&build_opts.pkg)?;
+    match forc_pkg::build_with_options(&build_opts, None)? {
+        Built::Package(p) => Ok(BuiltSuite { plan, built: p }),
+        Built::Workspace(_) => anyhow::bail!("unexpected workspace"),
+    }
+}
+
+fn observe_results(tests: &[forc_test::TestResult]) -> Vec<Obs> {
+    tests
+        .iter()
+        .map(|t| {
+            let state = match t.state {
+                fuel_vm::state::ProgramState::Return(_) | fuel_vm::state::ProgramState::ReturnData(_) => State::Return,
+                fuel_vm::state::ProgramState::Revert(c) => State::Revert(c),
+                ref other => State::Other(format!("{other:?}")),
+            };
+            let logs = t
+                .logs
+                .iter()
+                .map(|r| match r {
+                    fuel_tx::Receipt::Log { ra, .. } => Ok(*ra),
+                    fuel_tx::Receipt::LogData { data, .. } => {
+                        let d = data.as_ref().map(|d| d.to_vec()).unwrap_or_default();
+                        match <[u8; 8]>::try_from(d.as_slice()) {
+                            Ok(b) => Ok(u64::from_be_bytes(b)),
+                            Err(_) => Err(format!("logdata:{}", hex::encode(&d))),
+                        }
+                    }
+                    other => Err(format!("{other:?}")),
+                })
+                .collect();
+            Obs { name: t.name.clone(), passed: t.passed(), state, logs }
+        })
+        .collect()
+}
+
+fn run_built(b: &BuiltSuite, runners: usize, filter: Option<(&str, bool)>) -> anyhow::Result<Vec<Obs>> {
+    let tests = forc_test::BuiltTests::from_built(Built::Package(b.built.clone()), &b.plan)?;
+    let gas = forc_test::GasCostsSource::BuiltIn.provide_gas_costs()?;
+    let filter = filter.map(|(p, exact)| forc_test::TestFilter { filter_phrase: p, exact_match: exact });
+    let tested = tests.run(forc_test::TestRunnerCount::Manual(runners.max(1)), filter, gas, forc_test::TestGasLimit::default())?;
+    match tested {
+        forc_test::Tested::Package(p) => Ok(observe_results(&p.tests)),
+        forc_test::Tested::Workspace(_) => anyhow::bail!("unexpected workspace"),
+    }
+}
+
+/// Observations through `engine::run_unit_tests` (builds again), in the same shape.
+fn run_engine(dir: &Path, profile: Profile, runners: usize, filter: Option<(&str, bool)>) -> anyhow::Result<Vec<Obs>> {
+    let run = engine::run_unit_tests(dir, profile, runners, filter)?;
+    Ok(run
+        .tests
+        .iter()
+        .map(|t| {
+            let state = match &t.outcome {
+                engine::Outcome::Return(_) | engine::Outcome::ReturnData(_) => State::Return,
+                engine::Outcome::Revert(c) => State::Revert(*c),
+                engine::Outcome::Panic(_) => State::Revert(0),
+                engine::Outcome::VmError(e) => State::Other(e.clone()),
+            };
+            let logs = t.logs.iter().map(|(_, _, d)| <[u8; 8]>::try_from(d.as_slice()).map(u64::from_be_bytes).map_err(|_| format!("logdata:{}", hex::encode(d)))).collect();
+            Obs { name: t.name.clone(), passed: t.passed, state, logs }
+        })
+        .collect())
+}
+
+// ------------------------------------------------------------------------------------------
+// Oracle
+
+fn replay_json(s: &Suite, profile: Profile, test: &str, run: &str) -> Value {
+    json!({"suite": s, "profile": profile.name(), "test": test, "run": run, "main.sw": s.main_src, "inner.sw": s.sub_src.as_ref().map(|x| x.1.clone())})
+}
+
+/// One observed test against what the suite was constructed to do. Returns false on violation.
+fn check_test(s: &Suite, spec: &TestSpec, o: &Obs, profile: Profile, run: &str, res: &mut ShardResult) -> bool {
+    let cell = format!("{}x{}", spec.kind.name(), spec.exp_class().name());
+    let where_ = format!("{} {} run={run} test={}", s.pkg.name(), profile.name(), spec.name);
+    // terminal state
+    let want_state = match spec.code {
+        None => State::Return,
+        Some(c) => State::Revert(c),
+    };
+    if o.state != want_state {
+        res.violation(
+            format!("wrong-terminal-state:{}:{}", s.pkg.name(), spec.kind.name()),
+            format!("[{where_}] body constructed to end with {want_state:?} ended with {:?} (logs {:?})", o.state, short_logs(&o.logs)),
+            replay_json(s, profile, &spec.name, run),
+        );
+        return false;
+    }
+    // logs: exactly the constructed sequence
+    let want_logs: Vec<Result<u64, String>> = spec.logs.iter().map(|v| Ok(*v)).collect();
+    if o.logs != want_logs {
+        // classify: a value that belongs to another test / an initialiser that was overwritten
+        let own: BTreeSet<u64> = spec.logs.iter().copied().collect();
+        let mut foreign_of = None;
+        for v in o.logs.iter().flatten() {
+            if !own.contains(v) {
+                if let Some(other) = s.tests.iter().find(|t| t.name != spec.name && t.logs[t.init_reads as usize..].contains(v)) {
+                    foreign_of = Some(other.name.clone());
+                    break;
+                }
+            }
+        }
+        let (sig, what) = match foreign_of {
+            Some(other) => (format!("foreign-log-value:{}", s.pkg.name()), format!("observed a value that only test {other} writes or logs")),
+            None => (format!("wrong-logs:{}:{}", s.pkg.name(), spec.kind.name()), "logs differ from the constructed sequence".to_string()),
+        };
+        res.violation(sig, format!("[{where_}] {what}: expected {:?} got {:?}", short_logs(&want_logs), short_logs(&o.logs)), replay_json(s, profile, &spec.name, run));
+        return false;
+    }
+    // the verdict of forc test
+    let want = spec.should_pass();
+    if o.passed != want {
+        res.violation(
+            format!("wrong-verdict:{cell}"),
+            format!("[{where_}] state {:?}, declared {:?}: forc test says passed={} but the expectation is {}", o.state, spec.expect, o.passed, if want { "met" } else { "not met" }),
+            replay_json(s, profile, &spec.name, run),
+        );
+        return false;
+    }
+    true
+}
+
+fn short_logs(l: &[Result<u64, String>]) -> Vec<String> {
+    l.iter()
+        .map(|x| match x {
+            Ok(v) => format!("{v:#x}"),
+            Err(e) => e.chars().take(40).collect(),
+        })
+        .collect()
+}
+
+fn filter_matches(name: &str, phrase: &str, exact: bool) -> bool {
+    if exact {
+        name == phrase
+    } else {
+        name.contains(phrase)
+    }
+}
+
+/// Check the set of tests of one run; returns the observations by name when the set is right.
+fn check_set<'a>(s: &Suite, obs: &'a [Obs], filter: Option<(&str, bool)>, profile: Profile, run: &str, res: &mut ShardResult) -> Option<BTreeMap<&'a str, &'a Obs>> {
+    let want: BTreeSet<&str> = s.tests.iter().filter(|t| filter.map(|(p, e)| filter_matches(&t.name, p, e)).unwrap_or(true)).map(|t| t.name.as_str()).collect();
+    let mut got: BTreeMap<&str, &Obs> = BTreeMap::new();
+    let mut dup = None;
+    for o in obs {
+        if got.insert(o.name.as_str(), o).is_some() {
+            dup = Some(o.name.clone());
+        }
+    }
+    let got_set: BTreeSet<&str> = got.keys().copied().collect();
+    if dup.is_some() || got_set != want {
+        let missing: Vec<&&str> = want.difference(&got_set).collect();
+        let extra: Vec<&&str> = got_set.difference(&want).collect();
+        let sig = if filter.is_some() { "filtered-run-wrong-test-set" } else { "full-run-wrong-test-set" };
+        res.violation(
+            format!("{sig}:{}", s.pkg.name()),
+            format!("[{} {} run={run}] filter {filter:?}: missing {missing:?}, unexpected {extra:?}, duplicate {dup:?}", s.pkg.name(), profile.name()),
+            replay_json(s, profile, "", run),
+        );
+        return None;
+    }
+    Some(got)
+}
+
+/// All runs of one suite in one profile.
+fn check_suite(s: &Suite, profile: Profile, dir: &Path, thorough: bool, res: &mut ShardResult) {
+    check_suite_w(s, profile, dir, thorough, res, &|_| {})
+}
+
+/// `rearm` is called before every phase (build, each run) with the results so far: the shard
+/// loop re-arms the per-case watchdog there.
+fn check_suite_w(s: &Suite, profile: Profile, dir: &Path, thorough: bool, res: &mut ShardResult, rearm: &dyn Fn(&ShardResult)) {
+    res.evaluations += 1;
+    rearm(res);
+    if let Err(e) = write_suite(dir, s) {
+        res.inconclusive(format!("cannot write package: {e}"));
+        return;
+    }
+    let built = match catch(AssertUnwindSafe(|| build_suite(dir, profile))) {
+        Ok(Ok(b)) => b,
+        Ok(Err(e)) => {
+            res.count("suites_rejected_by_compiler");
+            res.inconclusive(format!("generated {} suite does not build in {}: {}", s.pkg.name(), profile.name(), e.to_string().chars().take(300).collect::<String>()));
+            return;
+        }
+        Err((loc, msg)) => {
+            res.count("compiler_panics");
+            res.inconclusive(format!("compiler panicked on a generated suite at {loc}: {}", msg.chars().take(200).collect::<String>()));
+            return;
+        }
+    };
+    let by_name: BTreeMap<&str, &TestSpec> = s.tests.iter().map(|t| (t.name.as_str(), t)).collect();
+
+    // (label, runners, filter)
+    let mut runs: Vec<(String, usize, Option<(String, bool)>)> = vec![("full-1".into(), 1, None), (format!("full-{}", s.n_runners), s.n_runners, None)];
+    for (k, (p, e)) in s.filters.iter().enumerate() {
+        let runners = if k % 2 == 0 { 1 } else { s.n_runners };
+        runs.push((format!("filter{k}-{runners}"), runners, Some((p.clone(), *e))));
+    }
+    if thorough {
+        runs.push(("full-1-again".into(), 1, None));
+    }
+    let mut full: Option<BTreeMap<String, Obs>> = None;
+    let mut ok = true;
+    for (label, runners, filter) in &runs {
+        let f = filter.as_ref().map(|(p, e)| (p.as_str(), *e));
+        rearm(res);
+        let obs = match catch(AssertUnwindSafe(|| run_built(&built, *runners, f))) {
+            Ok(Ok(o)) => o,
+            Ok(Err(e)) => {
+                res.count("runs_failed");
+                res.inconclusive(format!("forc test run {label} failed: {}", e.to_string().chars().take(200).collect::<String>()));
+                ok = false;
+                continue;
+            }
+            Err((loc, msg)) => {
+                res.violation(panic_signature(&loc, &msg), format!("forc test run {label} panicked: {msg} at {loc}"), replay_json(s, profile, "", label));
+                ok = false;
+                continue;
+            }
+        };
+        if *runners == 1 {
+            res.count("runs_with_1_runner");
+        } else {
+            res.count("runs_with_n_runners");
+            res.count(&format!("runs_with_{runners}_runners"));
+        }
+        let Some(got) = check_set(s, &obs, f, profile, label, res) else {
+            ok = false;
+            continue;
+        };
+        if let Some((_, exact)) = f {
+            res.count("filtered_runs");
+            res.count(if exact { "filtered_runs_exact" } else { "filtered_runs_substring" });
+            if got.is_empty() {
+                res.count("filtered_runs_selecting_nothing");
+            }
+            if got.len() == 1 {
+                res.count("filtered_runs_selecting_one");
+            }
+            if got.len() > 1 && got.len() < s.tests.len() {
+                res.count("filtered_runs_selecting_proper_subset");
+            }
+        }
+        let first_full = filter.is_none() && full.is_none();
+        for (name, o) in &got {
+            let spec = by_name[name];
+            let good = check_test(s, spec, o, profile, label, res);
+            ok &= good;
+            res.add("log_values_checked", o.logs.len() as u64);
+            res.count("test_executions_checked");
+            if first_full && good {
+                res.count(&format!("cell_{}_{}", spec.kind.name(), spec.exp_class().name()));
+                if spec.writes_storage {
+                    res.count("storage_writing_tests_checked");
+                }
+                res.add("initialiser_reads_checked", spec.init_reads);
+                if spec.in_submodule {
+                    res.count("submodule_tests_checked");
+                }
+                res.count(if o.passed { "tests_reported_passed" } else { "tests_reported_failed" });
+            } else if good {
+                res.add("initialiser_reads_checked", spec.init_reads);
+            }
+            // filtered / repeated runs report what the full run reported
+            if let (false, Some(full)) = (first_full, &full) {
+                if let Some(fo) = full.get(*name) {
+                    res.count(if filter.is_some() { "filtered_tests_compared_with_full_run" } else { "repeated_tests_compared_with_first_run" });
+                    if fo != *o {
+                        res.violation(
+                            format!("run-differs-from-full-run:{}", s.pkg.name()),
+                            format!("[{} {} run={label} test={name}] full single-runner run observed passed={} {:?} {:?}; this run observed passed={} {:?} {:?}", s.pkg.name(), profile.name(), fo.passed, fo.state, short_logs(&fo.logs), o.passed, o.state, short_logs(&o.logs)),
+                            replay_json(s, profile, name, label),
+                        );
+                        ok = false;
+                    }
+                }
+            }
+        }
+        if first_full {
+            full = Some(got.iter().map(|(k, v)| (k.to_string(), (*v).clone())).collect());
+        }
+    }
+    // the same through engine::run_unit_tests (which builds again): cheap packages only
+    if !s.pkg.with_std() || (thorough && s.hash() % 4 == 0) {
+        let (p, e) = &s.filters[0];
+        for f in [None, Some((p.as_str(), *e))] {
+            rearm(res);
+            match catch(AssertUnwindSafe(|| run_engine(dir, profile, s.n_runners, f))) {
+                Ok(Ok(obs)) => {
+                    res.count("engine_run_unit_tests_runs");
+                    if let Some(got) = check_set(s, &obs, f, profile, "engine", res) {
+                        for (name, o) in &got {
+                            ok &= check_test(s, by_name[name], o, profile, "engine", res);
+                            res.count("test_executions_checked");
+                        }
+                    } else {
+                        ok = false;
+                    }
+                }
+                Ok(Err(e)) => res.inconclusive(format!("engine::run_unit_tests failed: {}", e.to_string().chars().take(200).collect::<String>())),
+                Err((loc, msg)) => {
+                    res.violation(panic_signature(&loc, &msg), format!("forc test panicked: {msg} at {loc}"), replay_json(s, profile, "", "engine"));
+                    ok = false;
+                }
+            }
+        }
+    }
+    if full.is_some() {
+        res.count(&format!("suites_{}", match s.pkg {
+            PkgKind::StdlessLibrary => "stdless_library",
+            PkgKind::Contract => "contract",
+            _ => "std_noncontract",
+        }));
+        res.count(&format!("suites_kind_{}", s.pkg.name()));
+        res.count(&format!("profile_{}", profile.name()));
+        res.max("max_tests_in_suite", s.tests.len() as u64);
+        if s.kinds() >= 3 {
+            res.note_nontrivial(s.hash() ^ (profile as u64));
+        }
+        if ok && (res.samples.is_empty() || (s.pkg == PkgKind::Contract && res.samples.len() < 2)) {
+            res.sample(json!({"package": s.pkg.name(), "profile": profile.name(), "tests": s.tests.len(), "runners": [1, s.n_runners], "filters": s.filters,
+                "first_tests": s.tests.iter().take(4).map(|t| json!({"name": t.name, "kind": t.kind.name(), "code": t.code, "expect": format!("{:?}", t.expect), "logs": t.logs.len(), "reported_passed": t.should_pass()})).collect::<Vec<_>>()}));
+        }
+    }
+}
+
+// ------------------------------------------------------------------------------------------
+// Shard loop, replay
+
+fn pkg_for(rng: &mut StdRng, shard: u64, index: u64) -> PkgKind {
+    // a fixed rhythm so that every shard covers every class early, whatever the time budget
+    // (staggered over the shards so that the expensive std builds do not all start together)
+    match (index + 3 * shard) % 8 {
+        0 => PkgKind::Contract,
+        4 => *[PkgKind::Library, PkgKind::Script, PkgKind::Script, PkgKind::Predicate].choose(rng).unwrap(),
+        _ => PkgKind::StdlessLibrary,
+    }
+}
+
+fn shard(ctx: &ShardCtx) -> ShardResult {
+    let mut res = ShardResult::default();
+    let thorough = ctx.tier == Tier::Thorough;
+    let mut i = ctx.first_index;
+    // duration of the slowest std (suite, profile) so far (initial estimate 12 s): such a case is not started when less
+    // than that is left of the budget (the index is skipped; the case at an index stays a pure
+    // function of (seed, shard, index))
+    let mut std_case_s = 12f64;
+    while ctx.time_left() {
+        let mut rng = ctx.rng(i);
+        let pkg = pkg_for(&mut rng, ctx.shard, i);
+        let left = ctx.budget.saturating_sub(ctx.start.elapsed()).as_secs_f64();
+        if pkg.with_std() && res.counters.contains_key("suites_contract") && res.counters.contains_key("suites_std_noncontract") && left < std_case_s {
+            res.count("std_cases_skipped_near_end_of_budget");
+            i += 1;
+            continue;
+        }
+        let suite = gen_suite(&mut rng, pkg);
+        // std suites cost seconds per build: one profile per case in quick (alternating), both in thorough
+        let profiles: Vec<Profile> = if !pkg.with_std() || thorough {
+            Profile::BOTH.to_vec()
+        } else if (i / 4 + ctx.shard) % 2 == 0 {
+            vec![Profile::Debug]
+        } else {
+            vec![Profile::Release]
+        };
+        for profile in profiles {
+            if !ctx.time_left() && res.evaluations > 0 {
+                break;
+            }
+            let desc = format!("// {} {}\n{}\n// ---- inner.sw\n{}", pkg.name(), profile.name(), suite.main_src, suite.sub_src.as_ref().map(|x| x.1.as_str()).unwrap_or(""));
+            journal_current(ctx, &desc);
+            let dir = ctx.work().join("suite");
+            let t0 = std::time::Instant::now();
+            check_suite_w(&suite, profile, &dir, thorough, &mut res, &|r| ctx.begin_case(i, &desc, r));
+            ctx.end_case();
+            if pkg.with_std() {
+                std_case_s = std_case_s.max(t0.elapsed().as_secs_f64());
+            }
+        }
+        i += 1;
+    }
+    res
+}
+
+fn replay(case: &Value) -> ShardResult {
+    let mut res = ShardResult::default();
+    let suite: Suite = match serde_json::from_value(case["suite"].clone()) {
+        Ok(s) => s,
+        Err(e) => {
+            res.harness_fault = Some(format!("replay file has no suite: {e}"));
+            return res;
+        }
+    };
+    let profile = if case["profile"].as_str() == Some("release") { Profile::Release } else { Profile::Debug };
+    let dir = work_dir("C29").join("replay");
+    check_suite(&suite, profile, &dir, true, &mut res);
+    res
+}
+
+// ------------------------------------------------------------------------------------------
+// helper subcommands:
+//   c29-gen <seed> <index> <pkgkind> [profile]   print and run one generated suite
+//   c29-selftest                                 the oracle against synthetic wrong observations
+
+fn subcommand(args: &[String]) -> Option<i32> {
+    match args.first().map(|s| s.as_str()) {
+        Some("c29-gen") => {
+            let seed: u64 = args.get(1).and_then(|s| s.parse().ok()).unwrap_or(1);
+            let index: u64 = args.get(2).and_then(|s| s.parse().ok()).unwrap_or(0);
+            let pkg = match args.get(3).map(|s| s.as_str()) {
+                Some("library") => PkgKind::Library,
+                Some("script") => PkgKind::Script,
+                Some("predicate") => PkgKind::Predicate,
+                Some("contract") => PkgKind::Contract,
+                _ => PkgKind::StdlessLibrary,
+            };
+            let profiles: Vec<Profile> = match args.get(4).map(|s| s.as_str()) {
+                Some("debug") => vec![Profile::Debug],
+                Some("release") => vec![Profile::Release],
+                _ => Profile::BOTH.to_vec(),
+            };
+            let shard_no: u64 = std::env::var("C29_SHARD").ok().and_then(|s| s.parse().ok()).unwrap_or(0);
+            let mut rng = rng_for(seed, shard_no, index);
+            let pkg = if args.get(3).map(|s| s.as_str()) == Some("auto") { pkg_for(&mut rng, shard_no, index) } else { pkg };
+            let suite = gen_suite(&mut rng, pkg);
+            println!("{}", suite.main_src);
+            if let Some((_, s)) = &suite.sub_src {
+                println!("// ---- inner.sw\n{s}");
+            }
+            let dir = work_dir("C29gen");
+            let mut bad = 0;
+            for p in profiles {
+                let mut res = ShardResult::default();
+                let t = std::time::Instant::now();
+                let last = std::cell::Cell::new(std::time::Instant::now());
+                check_suite_w(&suite, p, &dir.join("suite"), true, &mut res, &|_| {
+                    if std::env::var("C29_TIMING").is_ok() {
+                        println!("  phase took {:.2}s", last.get().elapsed().as_secs_f64());
+                    }
+                    last.set(std::time::Instant::now());
+                });
+                println!("{} {}: {:.2}s violations={} inconclusive={:?} counters={:?}", pkg.name(), p.name(), t.elapsed().as_secs_f64(), res.violations.len(), res.inconclusive_notes, res.counters);
+                for v in &res.violations {
+                    println!("  VIOLATION {} :: {}", v.signature, v.description);
+                }
+                if res.counters.contains_key("suites_rejected_by_compiler") && pkg.with_std() {
+                    let mut am = engine::Amortised::new(&dir.join("am"));
+                    match am.diagnose_dir(&dir.join("suite"), p) {
+                        Ok((errs, produced)) => {
+                            println!("  diagnose: produced={produced}");
+                            for e in errs.iter().take(8) {
+                                println!("  error: {e} @ {:?}", sway_types::Spanned::span(e).as_str().chars().take(80).collect::<String>());
+                            }
+                        }
+                        Err(e) => println!("  diagnose failed: {e}"),
+                    }
+                }
+                bad += res.violations.len();
+            }
+            Some(if bad > 0 { 1 } else { 0 })
+        }
+        Some("c29-selftest") => Some(selftest()),
+        _ => None,
+    }
+}
+
+/// The oracle against synthetic observations: every wrong observation must be reported, the right
+/// one must not.
+fn selftest() -> i32 {
+    let mut rng = rng_for(7, 0, 0);
+    let suite = gen_suite(&mut rng, PkgKind::Contract);
+    let truth: Vec<Obs> = suite
+        .tests
+        .iter()
+        .map(|t| Obs { name: t.name.clone(), passed: t.should_pass(), state: t.code.map(State::Revert).unwrap_or(State::Return), logs: t.logs.iter().map(|v| Ok(*v)).collect() })
+        .collect();
+    let mut failures = 0;
+    let mut expect = |label: &str, obs: &[Obs], filter: Option<(&str, bool)>, want_violation: Option<&str>| {
+        let mut res = ShardResult::default();
+        if let Some(got) = check_set(&suite, obs, filter, Profile::Debug, "selftest", &mut res) {
+            let by_name: BTreeMap<&str, &TestSpec> = suite.tests.iter().map(|t| (t.name.as_str(), t)).collect();
+            for (n, o) in got {
+                check_test(&suite, by_name[n], o, Profile::Debug, "selftest", &mut res);
+            }
+        }
+        let got = res.violations.first().map(|v| v.signature.clone());
+        let good = match (want_violation, &got) {
+            (None, None) => true,
+            (Some(w), Some(g)) => g.starts_with(w),
+            _ => false,
+        };
+        println!("selftest {label}: expected {want_violation:?} got {got:?} {}", if good { "ok" } else { "FAILED" });
+        if !good {
+            failures += 1;
+        }
+    };
+    expect("truth", &truth, None, None);
+    // verdict inverted for one test of every cell
+    let mut seen = BTreeSet::new();
+    for (i, t) in suite.tests.iter().enumerate() {
+        if seen.insert((t.kind, t.exp_class().name())) {
+            let mut o = truth.clone();
+            o[i].passed = !o[i].passed;
+            expect(&format!("inverted verdict {}x{}", t.kind.name(), t.exp_class().name()), &o, None, Some("wrong-verdict"));
+        }
+    }
+    // a test that saw another test's storage write instead of the initialiser
+    let writer = suite.tests.iter().position(|t| t.writes_storage).expect("writer");
+    let victim = (writer + 1) % suite.tests.len();
+    let leaked = suite.tests[writer].logs[suite.tests[writer].init_reads as usize];
+    let mut o = truth.clone();
+    o[victim].logs[0] = Ok(leaked);
+    expect("leaked storage write", &o, None, Some("foreign-log-value"));
+    // a test that executed another test's body
+    let mut o = truth.clone();
+    let other = (victim + 1) % suite.tests.len();
+    o[victim].logs = truth[other].logs.clone();
+    o[victim].state = truth[other].state.clone();
+    expect("wrong body executed", &o, None, Some(""));
+    // an extra log receipt of another test appended
+    let mut o = truth.clone();
+    let foreign = *suite.tests[other].logs.last().unwrap();
+    o[victim].logs.push(Ok(foreign));
+    expect("foreign log appended", &o, None, Some("foreign-log-value"));
+    // a missing test, a duplicated test
+    let mut o = truth.clone();
+    o.pop();
+    expect("test missing from the full run", &o, None, Some("full-run-wrong-test-set"));
+    let mut o = truth.clone();
+    o.push(truth[0].clone());
+    expect("test reported twice", &o, None, Some("full-run-wrong-test-set"));
+    // filters
+    let name = suite.tests[0].name.clone();
+    let exact: Vec<Obs> = truth.iter().filter(|t| t.name == name).cloned().collect();
+    expect("exact filter, right set", &exact, Some((&name, true)), None);
+    let contains: Vec<Obs> = truth.iter().filter(|t| t.name.contains(&name)).cloned().collect();
+    expect("substring filter, right set", &contains, Some((&name, false)), None);
+    expect("filter ignored", &truth, Some((&name, true)), Some("filtered-run-wrong-test-set"));
+    let wrong: Vec<Obs> = vec![truth[1].clone()];
+    expect("filter ran the wrong entry", &wrong, Some((&name, true)), Some("filtered-run-wrong-test-set"));
+    // revert code dropped from the state
+    if let Some(i) = suite.tests.iter().position(|t| matches!(t.code, Some(c) if c != 0)) {
+        let mut o = truth.clone();
+        o[i].state = State::Revert(0);
+        expect("revert code lost", &o, None, Some("wrong-terminal-state"));
+    }
+    // oracle table
+    let table = [
+        (None, Expect::None, true), (None, Expect::Any, false), (None, Expect::Code(0), false),
+        (Some(0), Expect::None, false), (Some(0), Expect::Any, true), (Some(0), Expect::Code(0), true), (Some(0), Expect::Code(1), false),
+        (Some(SIG_ASSERT), Expect::Code(SIG_ASSERT), true), (Some(SIG_ASSERT), Expect::Code(SIG_ASSERT_EQ), false),
+    ];
+    for (code, e, want) in table {
+        if oracle_pass(code, e) != want {
+            println!("selftest oracle table FAILED for {code:?} {e:?}");
+            failures += 1;
+        }
+    }
+    println!("selftest failures: {failures}");
+    if failures > 0 {
+        1
+    } else {
+        0
+    }
+}
